@@ -77,6 +77,14 @@ emit("ps13", lvl(%d %% 5)) end`,
 	`do local mt = {__gc = function(o) emit("fin", "abandoned", o.id) end}
 local function hold(d) local o = setmetatable({id = d}, mt) if d == 0 then error("unwind") end return hold(d - 1) + 1 end
 emit("ps15", pcall(hold, %d %% 6 + 1)) collect() emit("ps15b", %d) end`,
+	// garbage with finalisers that the collector only notices after the script has ended: the host lets
+	// the collector run (hostcollect) and then closes the runtime, which must finalise what is pending
+	`do local mt = {__gc = function(o) emit("fin", "left-behind", o.id) end}
+local function mkg(n) for i = 1, n do setmetatable({id = i}, mt) end return n end
+emit("ps16", mkg(%d %% 4 + 1), %d) end -- hostcollect`,
+	// a function returns normally while a to-be-closed value has lost its __close: the error comes out of
+	// the return itself, when the continuation is about to be handed back
+	`emit("ps17", pcall(function() local x <close> = mkc(%d) getmetatable(x).__close = nil return %d end))`,
 	// two userdata made by the host around Go values that may be equal (small integers: handles), each with
 	// its own finaliser, still referenced when the runtime is closed: every one of them is finalised
 	`do FIN = FIN or {} local a, b = mkv(%d %% 2, function() emit("fin", "va") end), mkv(%d %% 2, function() emit("fin", "vb") end)
@@ -127,7 +135,8 @@ func runConf(ctx *core.RunCtx) {
 		ctx.Count("fault.knob WithRegSetMaxAge", 1)
 	}
 	var col *collector
-	if strings.Contains(extra, "collect()") {
+	hostCollect := strings.Contains(extra, "-- hostcollect")
+	if strings.Contains(extra, "collect()") || hostCollect {
 		// the Go finalizers of this run are delivered by the harness, all of them at collect()
 		col = &collector{}
 		rt.VerifSetFinalizerFunc(col.setFinalizer)
@@ -180,6 +189,13 @@ func runConf(ctx *core.RunCtx) {
 	}
 	leak := s.Drain()
 	s.Reap(h.R.MainThread())
+	if hostCollect {
+		col.barrier()
+		for col.pending() > 0 {
+			col.deliver(0)
+			ctx.Count("fault.gc-deliver (finaliser made pending after the script, before Close)", 1)
+		}
+	}
 	h.Close() // finalisers of values still referenced run here: part of the log
 	events := log.Events()
 	s.End()
